@@ -77,15 +77,24 @@ package protocol
 
 // ---- query-string and cookie scanners (C03: no panics for any input) ----
 
+// C17: decodeArgAppend inverts every well-formed encoding: if src is the encoding of qx[0:qn]
+// (ghost description in internal/bytesconv) and does not share dst's array, the result is dst ++ qx[0:qn].
 //@ func decodeArgAppend(dst, src) r
-//@   props C03
+//@   props C03, C17
 //@   alias dst
-//@   modifies spare(dst)
+//@   modifies spare(dst), qk
 //@   allocates
+//@   ghostset-at-entry qk = 0
+//@   ghostset after append#2: qk = qk + 1
+//@   ghostset after append#3: qk = qk + 1
+//@   ghostset after append#4: qk = qk + 1
+//@   ghostset after append#5: qk = qk + 1
 //@   ensures extends(r, dst) && spareOnly(dst)
+//@   top-ensures @C17 old(isArgEncoding(src)) && !sameArray(dst, src) ==> len(r) == len(dst) + qn && forall(k, 0, qn, r[len(dst) + k] == qx[k])
 //@   loop 0:
 //@     invariant 0 <= i && i <= len(src)
 //@     invariant extends(dst, old(dst)) && spareOnly(old(dst))
+//@     invariant @C17 old(isArgEncoding(src)) && !sameArray(old(dst), src) ==> 0 <= qk && qk <= qn && i == qpos[qk] && len(dst) == len(old(dst)) + qk && forall(j, 0, qk, dst[len(old(dst)) + j] == qx[j])
 
 //@ func decodeCookieArg(dst, src, skipQuotes) r
 //@   props C03
